@@ -6,7 +6,7 @@ TECH = "deterministic simulation with fault injection"
 CHECKS = {
     "C01": ("exploration", "§5 C01",
             "Seeded whole-pipeline simulation (real CLI on SimFS, seeded solver peer, option swarm); every emitted block is compared with its input by a reference EVM interpreter on seeded states. Sampling: a clean batch is evidence, not proof.",
-            "Trusts the reference interpreter R1 (gsim/ref/evm.py), z3 4.8.12 as honest peer, sampled 256-bit states; OptiMathSAT is a wire-format stub. A deterministic supplement (rule sweep, pseudo-operand sweep, every block of <= 3 instructions over a 26-word vocabulary) runs through the same pipeline and oracle in every run.",
+            "Trusts the reference interpreter R1 (gsim/ref/evm.py), z3 4.8.12 as honest peer, sampled 256-bit states; OptiMathSAT is a wire-format stub. A deterministic supplement (rule sweep, pseudo-operand sweep, every block of <= 3 instructions over a 26-word vocabulary) (196 patterns: the rules and near misses of the two-term rules, six shapes each) runs through the same pipeline and oracle in every run.",
             TECH + ": seeded solver-peer replies and option swarm over the real pipeline, reference-interpreter oracle"),
     "C08": ("exploration", "§5 C08",
             "Seeded whole-pipeline simulation with a solver peer biased to tempt the accept/reject logic (non-optimal, cost-maximising, no model/unsat with and without a greedy candidate, greedy forced to fail); every emitted block is priced by the independent cost model R4 and compared with its input; printed totals are compared with R4 sums over the input and the emitted file.",
@@ -30,10 +30,10 @@ CHECKS = {
             TECH + ": process-schedule variation (hash seed, temp dir, clock) with pairwise artefact digests"),
     "C11": ("fault_enumeration", "§5 C11",
             "Op sequences Optimize(-log) -> Replay on the simulated disk: byte-for-byte fidelity of the replay; crash points (kill / power loss) placed on I/O events between the first write of the log and the close of the output file, then Restart + Replay from the surviving image (error, crash-free output, or code equivalent to the input) and Restart + Optimize (must reproduce the crash-free output and log); logs tampered by id substitution/deletion/duplication/permutation/foreign insertion, swapped or renamed keys, truncation and single-bit flips must be rejected or yield R1-equivalent code.",
-            "Crash points are sampled inside the write window in the quick tier (enumerated in the thorough tier for windows <= 400 events); tamper edits sampled (<= 3 edits); durable-image model in gsim/core/simfs.py; R1 decides equivalence on sampled states.",
+            "Crash points are sampled inside the write window in the quick tier (enumerated in the thorough tier for windows <= 400 events); tamper edits sampled (<= 3 edits) plus deterministic ones (operands of stores; DUP/SWAP indices in the entries of non-first sub-blocks, with documents that repeat the same code in consecutive sub-blocks); durable-image model in gsim/core/simfs.py; R1 decides equivalence on sampled states.",
             TECH + ": crash-point placement with durable-image model, stored-byte corruption of logs, restart and replay ops"),
     "C14": ("fault_enumeration", "§5 C14",
-            "Fault enumeration over solver-peer outcomes per sub-block (all fail / exactly call k succeeds for each k up to 5 / seeded subset / all succeed via greedy) on split-bait blocks for the three policies; recorders at the rebuild and specification seams capture what the real code saw; checks: join of sub-blocks == optimizable instructions, every specification key names a reported sub-block with matching original_instrs, source stack not larger than what precedes it, rebuild == independent positional rebuild, all-fail => emitted block == input.",
+            "Fault enumeration over solver-peer outcomes per sub-block (all fail / exactly call k succeeds for each k up to 5 / seeded subset / all succeed via greedy) on split-bait blocks for the three policies; recorders at the rebuild and specification seams capture what the real code saw; checks: join of sub-blocks == optimizable instructions, every specification key names a reported sub-block with matching original_instrs, source stack not larger than what precedes it, rebuild == independent positional rebuild, all-fail => emitted block == input. The real rebuild function is additionally driven with harness-chosen replacements for every sub-block (nothing; the empty sequence; the sub-block itself; a neutral pair; a copy of the neighbouring split instruction; two neighbours emptied) and compared with the positional rebuild.",
             "Single-success patterns enumerated up to 5 sub-blocks per block, base blocks sampled; the clause on source-stack sizes is an upper bound only (the front-end drops untouched cells).",
             TECH + ": enumerated per-sub-block peer success/failure patterns, recorders at the rebuild seam, independent positional rebuild"),
     "C17": ("exploration", "§5 C17",
